@@ -126,7 +126,7 @@ Fixpoint brun_log (slack min max : Z) (es : list tbev) (sn : @bstate lreq * nat)
   match es with
   | [] => (fst sn, started)
   | e :: es' =>
-    let sn' := bstep (lsplit slack max) lsizeof min sn (bev_of e) in
+    let sn' := bstep (lsplit slack max) lsizeof lsizeof min sn (bev_of e) in
     let before := b_nbatch (fst sn) in
     let newly := filter (fun x => (before <=? fst (fst x))%nat) (b_flying (fst sn')) in
     brun_log slack min max es' sn' (started ++ map (fun x => fst (snd (fst x))) newly)
@@ -154,12 +154,12 @@ Fixpoint tr_evs (slack min max : Z) (es : list tbev) (sn : @bstate lreq * nat) :
                 | None => (2, [Z.of_nat (b_nbatch (fst sn))], x)      (* no such batch in flight: a no-op result *)
                 end
               else e in
-    e' :: tr_evs slack min max es' (bstep (lsplit slack max) lsizeof min sn (bev_of e'))
+    e' :: tr_evs slack min max es' (bstep (lsplit slack max) lsizeof lsizeof min sn (bev_of e'))
   end.
 
 (* the specification's verdict on the error of request i's callback (Model.erun), for the same history *)
 Definition spec_err (slack min max : Z) (evs : list tbev) (i : Z) : Z :=
-  if snd (erun (lsplit slack max) lsizeof min (map bev_of evs)) (Z.to_nat i) then 1 else 0.
+  if snd (erun (lsplit slack max) lsizeof lsizeof min (map bev_of evs)) (Z.to_nat i) then 1 else 0.
 
 Definition pz_eqb (a b : Z * Z) : bool := Z.eqb (fst a) (fst b) && Z.eqb (snd a) (snd b).
 
@@ -169,7 +169,7 @@ Definition model_e2e (signal sz mn mx : Z) (reqs : list treq) : list (list Z) :=
   let w := weight_of signal in
   let s := sizer_of sz in
   let evs := map (fun t => EConsume (req_of t)) reqs ++ [EShutdown] in
-  let st := fst (brun (fun a b => merge_split w s mx a b) (fun r => payload_size w s (rp r)) mn evs) in
+  let st := fst (brun (fun a b => merge_split w s mx a b) (fun r => payload_size w s (rp r)) (fun r => sumZf w (items_of (rp r))) mn evs) in
   map (fun f => map iid (items_of (rp (snd (fst f))))) (b_flying st).
 
 (* ---- check_case -------------------------------------------------------------------------------- *)
